@@ -46,6 +46,14 @@ pub fn dispatch(op: &str, req: &Value) -> Result<Value, String> {
         return crate::ops_stateres::c08(k, req);
     }
     #[cfg(feature = "signatures")]
+    if op == "c17:ring_compat" {
+        let b = crate::arg_bytes(req, "s")?;
+        return Ok(match ruma_signatures::verif_compatible_document(&b[..]) {
+            Some(v) => json!({"r": "ok", "rewritten_len": v.len()}),
+            None => json!({"r": "ok", "rewritten_len": null}),
+        });
+    }
+    #[cfg(feature = "signatures")]
     if let Some(k) = op.strip_prefix("c02:") {
         return crate::ops_signatures::c02(k, req);
     }
